@@ -232,6 +232,13 @@ class Member:
                     if m2 and top.index(t) > top.index(cmd[0]): e += '.' + t
         return e
 
+    def group_help(self):
+        """the title of a plain parser: what the annotation says; the doc comment only when there is no annotation"""
+        for t in self.top:
+            m = re.match(r'^group_help\((.*)\)$', t)
+            if m: return m.group(1)
+        return lit(self.doc) if self.doc else None
+
     def reference(self):
         is_opts = any(t == 'options' or t.startswith('options(') for t in self.top)
         cmd = any(t == 'command' or t.startswith('command(') for t in self.top)
@@ -242,8 +249,8 @@ class Member:
                 # unit struct: a required flag named after the type
                 kn = variant_kebab(self.name)
                 body = '::bpaf::long(%s).req_flag(%s)' % (lit(kn), self.name)
-            if not is_opts and not cmd and self.doc:
-                body += '.group_help(%s)' % lit(self.doc)
+            if not is_opts and not cmd and self.group_help():
+                body += '.group_help(%s)' % self.group_help()
             if 'adjacent' in self.top and not cmd: body += '.adjacent()'
             # post-processing annotations decorate the PARSER of the fields: they come before to_options() / command(), whatever the mode
             for t in self.top:
@@ -275,8 +282,8 @@ class Member:
                 alts.append('            let alt%d = %s;' % (i, e))
             body = '{\n%s\n            ::bpaf::construct!([%s])\n        }' % ('\n'.join(alts), ', '.join('alt%d' % i for i in range(len(alts))))
             body += self.top_suffix(self.doc, self.top, variant_kebab(self.name))
-            if not is_opts and not cmd and self.doc:
-                body += '.group_help(%s)' % lit(self.doc)
+            if not is_opts and not cmd and self.group_help():
+                body += '.group_help(%s)' % self.group_help()
         return '    pub fn reference() -> %s {\n        #[allow(unused_imports)]\n        use ::bpaf::Parser;\n        %s\n    }\n' % (ret, body)
 
     def text(self):
@@ -346,6 +353,12 @@ def base_family():
     M.append(Member('b_cmd_fallback', 'struct', 'Tune', top=['command', 'fallback(Tune { level: 3 })'], doc='tune it', fields=[F('level', 'u32')]))
     M.append(Member('b_opts_fallback', 'struct', 'OptsF', top=['options', 'fallback(OptsF { n: 1 })'], fields=[F('n', 'u32')]))
     M.append(Member('b_docs_tab', 'struct', 'DocsTab', top=['options'], doc='Formats:\n\tjson,\n\u00a0\u00a0yaml', fields=[F('fmt', 'String', doc='\tpick one')]))
+    # only EMPTY doc lines separate blocks: a line of blanks is text
+    M.append(Member('b_docs_blank_lines', 'struct', 'DocsBlank', top=['options'], doc='Renders a table\n \n \ncells are separated with a pipe\n\n\nfooter text', fields=[F('width', 'usize', doc='Column width\n \nin characters')]))
+    # an explicit group_help wins over the doc comment of the type
+    M.append(Member('b_group_help_explicit', 'struct', 'Rect', top=['group_help("Takes a rectangle")'], doc='Dimensions of a rectangle, in meters', fields=[F('width', 'u32', doc='Width'), F('height', 'u32')]))
+    M.append(Member('b_group_help_enum', 'enum', 'Syntax', top=['group_help("Output syntax")'], doc='Which syntax to use', variants=[
+        dict(name='Intel', shape='unit', doc='Intel style'), dict(name='Att', shape='unit')]))
     # implicit names follow the word rule, whatever the style of the identifier
     M.append(Member('b_cmd_multiword', 'struct', 'CheckConnection', top=['command'], doc='check it', fields=[F('retry_count', 'u32')]))
     M.append(Member('b_case_rule', 'struct', 'CaseRule', top=['options'], fields=[F('max_KiB', 'u32'), F('HTTPProxy', 'Option<String>'), F('x_Y', 'bool', naming=[('long', None), ('short', None)])]))
